@@ -144,6 +144,24 @@ func longInputs(run *kit.Run) {
 			}
 		}
 	}
+	// deep nesting followed by runs of "..": down n levels, up m levels, down again, for n and m around the powers of two
+	for _, n := range []int{7, 8, 9, 15, 16, 17, 18, 31, 32, 33, 63, 64, 65, 129, 257} {
+		for _, m := range []int{1, 7, 8, 9, 15, 16, 17, 18, 31, 32, 33, 64, 65, 300} {
+			for _, rooted := range []bool{true, false} {
+				down := strings.Repeat("a/", n)
+				up := strings.Repeat("../", m)
+				pre := ""
+				if rooted {
+					pre = "/"
+				}
+				for _, tail := range []string{"", "b", "b/", "..", "b/../c"} {
+					one(run, pre+down+up+tail)
+					one(run, pre+down+"x/../"+up+down+tail)
+					cases += 2
+				}
+			}
+		}
+	}
 	run.Count("long_inputs", int64(cases))
 }
 
